@@ -713,7 +713,7 @@ func condMentions(cond ssa.Value, x ssa.Value, depth int) bool {
 
 var ruleJumpPatch = &Rule{
 	ID:    "R-JUMPPATCH",
-	Doc:   "every position returned by emitPos(op, JumpPlaceholder) reaches changeOperand on every success path: directly, through a slice that is ranged into changeOperand (jumpPositions, c.breaks), or by being returned to a caller that does so",
+	Doc:   "every position returned by emitPos(op, JumpPlaceholder) reaches changeOperand on every success path: directly, through a slice that is ranged into changeOperand (jumpPositions, c.breaks), or by being returned to a caller that does so, or by being handed to a helper that patches its parameter on every success path; a function that stores a fresh c.breaks list puts the list it read before back on every successful path",
 	Floor: 4,
 	Run:   runJumpPatch,
 }
